@@ -415,7 +415,7 @@ class Machine:
         self.solver = z3.Solver(); self.solver.set('timeout', timeout_ms)
         self.stats = collections.Counter(); self.promoted = {}
         self.trace = []; self.tpos = 0; self.work = []
-        self.pc = []; self.events = []; self.steps = 0; self.nfresh = 0
+        self.pc = []; self.events = []; self.steps = 0; self.nfresh = 0; self._divcache = {}
         self.base_constraints = []
         self.encoded = set()       # item keys actually executed
         self.models_used = set()   # contract models actually used
@@ -559,7 +559,7 @@ class Machine:
         npaths = 0
         while self.work:
             self.trace = self.work.pop(); self.tpos = 0
-            self.pc = []; self.events = []; self.steps = 0; self.nfresh = 0; self.domains = {}
+            self.pc = []; self.events = []; self.steps = 0; self.nfresh = 0; self.domains = {}; self._divcache = {}
             self.solver.reset(); self.solver.set('timeout', 20000)
             for c in self.base_constraints: self.solver.add(c)
             pr = PathResult(); pr.panic = None; pr.result = None; pr.inconclusive = None; pr.extra = None
@@ -1028,6 +1028,16 @@ class Machine:
         if op in ('Add', 'AddUnchecked'): return A + B
         if op in ('Sub', 'SubUnchecked'): return A - B
         if op in ('Mul', 'MulUnchecked'): return A * B
+        if op in ('Div', 'Rem') and not sg and not is_sym(b) and b > 1 and self.__dict__.get('div_lemma', True):
+            # unsigned division by a constant: fresh quotient and remainder tied to the dividend by the division lemma
+            # (A = q*d + r, r < d, q <= max/d so that q*d + r cannot wrap) — the same function, without a divider circuit for the solver
+            ck = (A.get_id(), b, w)
+            if ck not in self._divcache:
+                q = self.fresh_bv('quot', w); r = self.fresh_bv('rem', w)
+                self.assume(z3.And(A == q * z3.BitVecVal(b, w) + r, z3.ULT(r, z3.BitVecVal(b, w)), z3.ULE(q, z3.BitVecVal(((1 << w) - 1) // b, w)), z3.BVAddNoOverflow(q * z3.BitVecVal(b, w), r, False)))
+                self._divcache[ck] = (q, r, A)          # A kept alive so that its id is not reused
+            q, r, _ = self._divcache[ck]
+            return q if op == 'Div' else r
         if op == 'Div':
             if self.branch(B == 0): raise Panic('attempt to divide by zero')
             return (A / B) if sg else z3.UDiv(A, B)
